@@ -408,6 +408,8 @@ def _sp_re_func(f, a, k):
 def _sp_len(f, a, k):
     if a and isinstance(a[0], SSeq):
         return len(a[0].el)
+    if a and hasattr(a[0], 'slen'):
+        return a[0].slen()
     return f(*a, **k)
 
 
